@@ -492,7 +492,9 @@ class SSHConfig:
         :param dict config: the currently parsed config
         :param str hostname: the hostname whose config is being looked up
         """
-        for k in config:
+        # Expand HostName first: every other value's %h refers to the final
+        # (already expanded) HostName, whatever order the keys were obtained in
+        for k in sorted(config, key=lambda key: key != "hostname"):
             if config[k] is None:
                 continue
             tokenizer = partial(self._tokenize, config, target_hostname, k)
